@@ -1,10 +1,12 @@
 //@ unit ser_rawbytes
 //@ props C16 C01
 //@ kind B
+//@ def quick BS=3 NMAX=10
+//@ def thorough BS=4 NMAX=20
 //@ cbmc all --unwind 23 --unwinding-assertions --object-bits 10
 //@ replace XMLString_sizeToText
 //@ entry h_ser_rawbytes
-//@ note B (bounded stand-in, not a proof for all sizes): buffer sizes fBufSize in {2, 3, 4, 8} (one static object each), every initial fill level 0..fBufSize, every length n <= 20 bytes (<= 10 XMLCh for the wide variants), every content: with these bounds each branch of the chunking code is taken (fits / fill up + flush / k >= 1 whole chunks / remainder / no remainder); loops fully unwound with unwinding assertions. Unbounded n would need loop contracts over the tape; out of budget
+//@ note B (bounded stand-in, not a proof for all sizes): buffer size fBufSize = BS (quick 3, thorough 4; one static object of exactly BS bytes), every initial fill level 0..BS, every length n <= NMAX bytes (quick 10, thorough 20; half as many XMLCh for the wide variants), every content: with these bounds each branch of the chunking code is taken (fits / fill up + flush / k >= 1 whole chunks / remainder / no remainder); loops fully unwound with unwinding assertions. Unbounded n would need loop contracts over the tape; out of budget
 //@ note the streams are a harness stub (trusted model): one concrete ghost tape TAPE[0..TN); BinOutputStream::writeBytes appends, BinInputStream::readBytes delivers the next bytes (fewer than asked at the end of the tape)
 //@ note scenario = what a store engine and a load engine of the same build do: [earlier data of `off` bytes] write(bytes, n) ... destructor flush  ||  constructor fillBuffer, [earlier data consumed] read(bytes, n). flush, write and read (byte and XMLCh variants) and the ensure* helpers are the real bodies; flushBuffer / fillBuffer are stubs (see below)
 //@ note XMLString::sizeToText (throwing paths of the TEST_THROW macros) replaced by the contract proved in ser_pumpcount
@@ -15,7 +17,7 @@ struct BinInputStream { char opaque; };
 struct BinOutputStream { char opaque; };
 
 /* ---- ghost tape ---- */
-#define TN 48
+#define TN (2 * BS + NMAX + BS)
 struct { XMLByte a[TN]; } TAPE;
 XMLSize_t TAPE_w, TAPE_r;
 static void BinOutputStream_writeBytes(struct BinOutputStream *s, const XMLByte *toGo, XMLSize_t n)
@@ -87,11 +89,7 @@ call read => XSerializeEngine_read_bytes
 throws XSerializeEngine_read_bytes
 @*/
 
-#define NMAX 20
-#define BUFS(X) X(2) X(3) X(4) X(8)
-#define DECL(n) static XMLByte BUF##n[n] __attribute__((aligned(8)));
-#define SEL(n) case n: buf = BUF##n; break;
-BUFS(DECL)
+static XMLByte BUF[BS] __attribute__((aligned(8)));
 struct { XMLByte a[NMAX]; } SRC, DST;
 struct { XMLByte a[8]; } PRE;
 struct BinInputStream INS; struct BinOutputStream OUTS;
@@ -100,9 +98,8 @@ void h_ser_rawbytes(void)
 {
   XMLSize_t bs, off, n; _Bool wide;
   VERIF_INPUT(bs); VERIF_INPUT(off); VERIF_INPUT(n); VERIF_INPUT(wide); VERIF_INPUT(SRC); VERIF_INPUT(DST); VERIF_INPUT(PRE);
-  VERIF_ASSUME((bs == 2 || bs == 3 || bs == 4 || bs == 8) && off <= bs && n <= NMAX && (!wide || n % 2 == 0));
-  XMLByte *buf = 0;
-  switch (bs) { BUFS(SEL) default: break; }
+  VERIF_ASSUME(bs == BS && off <= bs && n <= NMAX && (!wide || n % 2 == 0));
+  XMLByte *buf = BUF;
   const XMLByte *src = SRC.a + (NMAX - n);     /* end-aligned: reading past n bytes leaves the object */
   XMLByte *dst = DST.a + (NMAX - n);
   fInputStream = &INS; fOutputStream = &OUTS; fBufSize = bs; fBufStart = buf; fBufCount = 0;
